@@ -308,7 +308,7 @@ int main(int argc, char **argv)
 	int idx = 0;
 	for (auto &x : res.violations) {
 		js::Value e = x;
-		std::string dir = "/verif/replays/C18/found"; std::string cmd = "mkdir -p " + dir; if (system(cmd.c_str())) {}
+		std::string dir = std::string(getenv("VERIF_ROOT") ? getenv("VERIF_ROOT") : "/verif") + "/replays/C18/found"; std::string cmd = "mkdir -p " + dir; if (system(cmd.c_str())) {}
 		std::string path = dir + "/" + mode + "-" + std::to_string(seed) + "-" + std::to_string(idx++) + ".json";
 		std::ofstream f(path); f << js::dump(x);
 		e.set("replay", js::Value::str(path));
